@@ -89,7 +89,7 @@ func run(c peng.Case) vt.Verdict {
 func TestProp(t *testing.T) {
 	vt.Main(t, vt.Spec[peng.Case]{
 		ID:           "C04",
-		Rule:         "rapid-generated programs of 3-25 calls of all kinds from 1-3 client managers (one connection each per server) against 1-3 servers; per (server, call) a handler behaviour from {return at once, timed hold then return, Release early then keep running, Release twice, Release from a helper goroutine before / after the handler returns, several goroutines racing to Release, never release until teardown}; oracle over the event log: per connection never more than one handler that has started and neither released nor returned (release is logged before Release is called), replies of released handlers reach their own call (provenance), probes of other managers are answered while a never-releasing handler of manager 0 is held (in half of these cases one more handler is registered on a running server meanwhile), and (1 case in 25) probes of every manager are answered while 100-320 handlers per server that have all called Release are still running, every call ends (a synchronous call blocked in its stub counts), no crash; non-trivial = a released handler observed overlapping a later one (measured), a double / helper-goroutine / concurrent release, or a second client",
+		Rule:         "rapid-generated programs of 3-25 calls of all kinds from 1-3 client managers (one connection each per server) against 1-3 servers; per (server, call) a handler behaviour from {return at once, timed hold then return, Release early then keep running, Release twice, Release from a helper goroutine before / after the handler returns, several goroutines racing to Release, never release until teardown}; oracle over the event log: per connection never more than one handler that has started and neither released nor returned (release is logged before Release is called), replies of released handlers reach their own call (provenance) and are not lost (a call that the harness did not cancel fails only with errors its handlers returned), probes of other managers are answered while a never-releasing handler of manager 0 is held (in half of these cases one more handler is registered on a running server meanwhile), and (1 case in 25) probes of every manager are answered while 100-320 handlers per server that have all called Release are still running, every call ends (a synchronous call blocked in its stub counts), no crash; non-trivial = a released handler observed overlapping a later one (measured), a double / helper-goroutine / concurrent release, or a second client",
 		Gen:          gen,
 		Run:          run,
 		TrackCurrent: true,
